@@ -14,7 +14,7 @@ RInv      == ModInv(RMont, P)
 ZSwu      == P -- 11                         \* the RFC 9380 non-square Z = -11 (sqrt_ratio's second branch)
 FlagOf(b) == IF b THEN 1 ELSE 0
 
-Classes == {"sum_window", "diff_borrow", "mont_window", "mont_sqr_window", "decode_ge_p", "decode_lt_p",
+Classes == {"canon_repr", "sum_window", "diff_borrow", "mont_window", "mont_sqr_window", "decode_ge_p", "decode_lt_p",
             "canon_reject", "canon_accept", "wide_len_odd", "wide_ge_p", "wide_panic", "sqrt_residue",
             "sqrt_nonresidue", "sqrt_zero", "ratio_v0", "ratio_square", "ratio_nonsquare", "inv_zero",
             "alias_all", "alias_recv", "pow2k_panic", "csel_nonbool_ctrl", "near_p", "near_zero"}
@@ -94,6 +94,8 @@ Verdict(ev) ==
     [] ev.ev = "fe.SetShort" ->
          << /\ HexLen(ev["in"]) = ev.len
             /\ IF ev.len < W THEN ~ev.panic /\ Is(H(ev["in"]), ev.out) ELSE ev.panic, {} >>
+    [] ev.ev = "fe.Canon" ->        \* internal representation: the limbs hold the canonical residue v*R, so the predicates agree with the encoding
+         << IntIsHex(FMul(H(ev.v), RMont), W, ev.mont) /\ ev.iszero = FlagOf(BigEq(H(ev.v), 0)) /\ ev.eq_fresh = 1, {"canon_repr"} >>
     [] ev.ev = "fe.Zero" -> << Is(0, ev.out), {} >>
     [] ev.ev = "fe.One"  -> << Is(1, ev.out), {} >>
     [] ev.ev = "fe.Const" ->
